@@ -4,7 +4,7 @@ from __future__ import annotations
 import itertools
 
 from harness_consts import ALL
-from vlib import core, elem
+from vlib import core, coqcorr, elem
 
 LEVEL = "proof"
 COQ = {"bool": "CBool", "int8": "CI8", "int16": "CI16", "int32": "CI32", "int64": "CI64", "uint8": "CU8",
@@ -90,6 +90,7 @@ def run(ctx):
         ctx.count(("row", s[0], tuple(s[1]), s[2]), nontrivial=True)
     ctx.sample({"row": list(specs[900][:3]), "observed": elem.short(out[(specs[900][0], tuple(specs[900][1]), specs[900][2])])})
 
+    numpy_scalars(ctx)
     # static theorems
     f = ctx.work / "C03_static.v"
     f.write_text((core.COQ / "Props" / "C03.v").read_text())
@@ -105,6 +106,65 @@ def run(ctx):
         "exhaustive": True,
         "traces_validated_against_impl": len(rows) + len(specs),
     })
+
+
+NPS = ["np:float64", "np:float32", "np:int64", "np:int32", "np:uint8", "np:bool", "np:utf8", "np:int8", "np:uint64"]
+BINARY = ["add", "atan2", "bitwise_and", "bitwise_left_shift", "bitwise_or", "bitwise_right_shift", "bitwise_xor", "divide", "equal",
+          "floor_divide", "greater", "greater_equal", "less", "less_equal", "logaddexp", "logical_and", "logical_or", "logical_xor",
+          "multiply", "not_equal", "pow", "remainder", "subtract"]
+
+
+def numpy_scalars(ctx):
+    """A NumPy scalar operand behaves as a 0-d array of its dtype: for every binary function x 24 array dtypes x 9 NumPy
+    scalar types x both orders (placeholders) the observed result dtype / exception family must be the one of the
+    array-array row of the regenerated table (looked up inside Coq)."""
+    cases = []
+    for f in BINARY:
+        pairs = [[d, s_] for d in ALL for s_ in NPS] + [[s_, d] for d in ALL for s_ in NPS]
+        cases.append({"id": f"nps-{f}", "kind": "binary", "func": f, "pairs": pairs})
+    res = core.run_cases("harness.h_dtypes", cases, workers=14, per_case_timeout=900)
+    rows, lines = [], []
+
+    def ak(n):
+        return f"AArr {cd(n[3:])}" if n.startswith("np:") else f"AArr {cd(n)}"
+
+    def obs(o):
+        if o.startswith("!"):
+            return "OExc " + {"TE": "ETypeError", "VE": "EValueError"}.get(o[1:].split("|")[0], "EOther")
+        if o.startswith("?"):
+            return "OExc EOther"
+        return f"ODt {cd(o)}"
+    for c in cases:
+        r = res.get(c["id"]) or {}
+        if "rows" not in r:
+            ctx.broken_machinery.append(f"NumPy-scalar enumeration failed: {c['id']}: {str(r)[:200]}")
+            return
+        for f, a, b, o in r["rows"]:
+            rows.append((f, a, b, o))
+            lines.append(f'  ("{f}", {ak(a)}, {ak(b)}, {obs(o)})')
+            ctx.count(("nps", f, a, b), nontrivial=True)
+            ctx.evaluations += 1
+    header = ("From Coq Require Import List Bool String.\nFrom ND Require Import Base.Dtype Ndx.ElemSyntax Ndx.ElemLaws Ndx.ReduceCorr.\nFrom G Require Import GenElem.\n"
+              "Import ListNotations.\nOpen Scope string_scope.\n"
+              "Inductive obs := ODt (d : dtype) | OExc (e : excfam).\n"
+              "Definition obs_eqb (a b : obs) : bool := match a, b with ODt x, ODt y => dtype_eqb x y | OExc x, OExc y => excfam_eqb x y | _, _ => false end.\n"
+              "Definition class_of (o : rowout) : option obs := match o with Traced d _ _ | DtypeOnly d => Some (ODt d) | Raises e => Some (OExc e) | Untranslated => None end.\n"
+              "Definition nprow := (string * argk * argk * obs)%type.\n"
+              "Definition fnames := nodup string_dec (map (fun r : row => r_fn r) table).\n"
+              "Definition ftables : list (string * list row) := Eval vm_compute in map (fun f => (f, filter (fun r => String.eqb (r_fn r) f && how_eqb (r_how r) HFunc) table)) " + "[" + "; ".join(f'"{f}"' for f in BINARY) + "].\n"
+              "Definition tbl_of (f : string) : list row := match find (fun p => String.eqb (fst p) f) ftables with Some p => snd p | None => [] end.\n"
+              "Definition np_ok (r : nprow) : bool := let '(f, a, b, o) := r in\n"
+              "  match lookup (tbl_of f) f HFunc [a; b] with Some ro => match class_of ro with Some c => obs_eqb c o | None => false end | None => false end.\n")
+
+    def on_bad(i):
+        f, a, b, o = rows[i]
+        ref = a[3:] if a.startswith("np:") else a, b[3:] if b.startswith("np:") else b
+        attrs = {"site": "numpy-scalar", "func": f, "args": [a, b], "observed": o.split("|")[0], "law": "numpy-scalar-as-0d-array"}
+        return ctx.finding(attrs, f"{f}({a}, {b}) gives {o}: differs from the array-array row {f}({ref[0]}, {ref[1]}) — a NumPy scalar must promote like a 0-d array of its dtype",
+                           {"call": f"ndonnx.{f}", "operands": [a, b], "observed": o, "how_to_replay": "tools/harness/h_dtypes.py kind=binary (placeholders of shape (2,), NumPy scalar as listed)"})
+    coqcorr.run(ctx, "NumpyScalars.v", f"T-exh (in Coq): NumPy scalar operands promote like 0-d arrays of their dtype — {len(lines)} calls (23 binary functions x 24 dtypes x 9 scalar types x 2 orders) against the array-array rows of the regenerated table",
+                header, "nprow", lines, "np_ok", on_bad, timeout=1200)
+    ctx.coverage["numpy_scalar_calls"] = len(lines)
 
 
 def search_result_type(ctx, rows, idx):
